@@ -34,9 +34,12 @@ EPS = 2.220446049250313e-16
 
 def _img(rng, nx, ny):
     """raw image with distinct pixel values, indexed img[x, y]"""
+    off = rng.randint(-50, 50)
+    if nx * ny > 100000:
+        vals = np.random.default_rng(rng.getrandbits(32)).permutation(nx * ny)
+        return vals.astype(np.int64).reshape(nx, ny) * 3 + off
     vals = list(range(nx * ny))
     rng.shuffle(vals)
-    off = rng.randint(-50, 50)
     return np.array(vals, dtype=np.int64).reshape(nx, ny) * 3 + off
 
 
@@ -343,6 +346,16 @@ def oracle(ctx, hints=()):
             viol += check_shape(o, img, px)
             npix += len(px)
             nontriv += len(px)
+    # detector-sized frames (several Mpixel, wide and tall): what a tiled / blocked implementation treats differently from a toy image
+    for nx, ny in ((1600 + rng.randint(0, 9), 2800 + rng.randint(0, 9)), (2527, 2463), (2881 + rng.randint(0, 9), 1475)):
+        img = _img(rng, nx, ny)
+        px = [(0, 0), (nx - 1, 0), (0, ny - 1), (nx - 1, ny - 1)] + [(rng.randrange(nx), rng.randrange(ny)) for _ in range(40)] \
+            + [(nx - 1 - rng.randrange(64), ny - 1 - rng.randrange(64)) for _ in range(20)]
+        for o in VALID:
+            viol += check_shape(o, img, px)
+            npix += len(px)
+            nontriv += len(px)
+    stats['detector_sized_frames'] = 3
     ev += npix * 5
     stats['pixels'] = npix
     # real coordinates inside the detector
